@@ -248,6 +248,12 @@ fn main() {
       let t = local.block_on(&rt, async move { lat_suite::run_micro_suite(seed, cases).await });
       std::fs::write(&a.out, t).expect("write transcript");
     },
+    "readers" => {
+      let (rt, local) = local_rt();
+      let (seed, cases) = (a.seed, a.cases);
+      let t = local.block_on(&rt, async move { lat_suite::run_readers_suite(seed, cases).await });
+      std::fs::write(&a.out, t).expect("write transcript");
+    },
     "probe_failed_loop" => {
       let (rt, local) = local_rt();
       let variant = a.extra.get("variant").cloned().unwrap_or_else(|| "oversize".into());
